@@ -115,11 +115,13 @@ func readHFSTSFromPCIConfigSpace(hw hwapi.LowLevelHardwareInterfaces, offset int
 	}
 
 	var err error
+	found := false
 	hfsts := make([]byte, 4)
 	if err := hw.PCIEnumerateVisibleDevices(
 		func(d hwapi.PCIDevice) (abort bool) {
 			if (d.Device == IntelCSMEDeviceID && d.Function == IntelFunction) ||
 				(d.Device == IntelSPSDeviceID && d.Function == IntelFunction) {
+				found = true
 				hfsts, err = hw.PCIReadConfigSpace(d, hfstsOffset[offset-1], len(hfsts))
 				if err != nil {
 					return true
@@ -130,7 +132,7 @@ func readHFSTSFromPCIConfigSpace(hw hwapi.LowLevelHardwareInterfaces, offset int
 		}); err != nil {
 		return nil, fmt.Errorf("couldn't enumerate PCI devices")
 	}
-	if err != nil {
+	if err != nil || !found {
 		return nil, fmt.Errorf("couldn't find Intel ME device for runtime checks")
 	}
 
